@@ -479,6 +479,14 @@ class Policy:
     def on_stmt(self, interp, stmt, cfg):
         return cfg
 
+    def abstract_local(self, name, val, node):
+        """Value actually stored for a kept local (identity by default; rules may widen)."""
+        return val
+
+    def atom_relevant(self, interp, node, val, cfg):
+        """False: the decision on this test need not be remembered (keeps irrelevant forks mergeable)."""
+        return True
+
     def keep_local(self, name):
         """False: the local is irrelevant for the rule; it is not stored (reads yield an opaque symbol)."""
         return True
@@ -943,7 +951,7 @@ class Interp:
         if isinstance(tgt, ast.Name):
             if not self.policy.keep_local(tgt.id):
                 return [cfg.unset(tgt.id)]
-            return [cfg.set(tgt.id, val)]
+            return [cfg.set(tgt.id, self.policy.abstract_local(tgt.id, val, tgt))]
         if isinstance(tgt, (ast.Tuple, ast.List)):
             n = len(tgt.elts)
             if isinstance(val, ListV) and len(val.items) == n and not any(isinstance(e, ast.Starred) for e in tgt.elts):
@@ -1028,7 +1036,7 @@ class Interp:
             t = self.policy.truth(self, v, cfg)
         if t is not None:
             return [(cfg, bool(t))]
-        if not self.policy.record_atoms:
+        if not self.policy.record_atoms or not self.policy.atom_relevant(self, node, v, cfg):
             return [(cfg, True), (cfg, False)]
         atom = self.policy.atom_key(self, node, v, cfg)
         d = cfg.decided(atom)
@@ -1391,9 +1399,18 @@ class Interp:
 
     def identity(self, l, r):
         concrete = (Const, NodeV, ListV, DictV, ObjV, FuncV, ClassV)
+        if isinstance(l, Sym) and isinstance(r, Sym) and l.tag and r.tag and l.tag[0] == "g" and r.tag[0] == "g":
+            ln, rn = l.tag[1], r.tag[1]
+            if "." in ln and "." in rn and ln.rsplit(".", 1)[0] == rn.rsplit(".", 1)[0] and ln.rsplit(".", 1)[0][:1].isupper():
+                return ln == rn  # members of one enumeration class
+        if isinstance(l, Sym) and isinstance(r, Sym) and l.tag and r.tag and l.tag[0] == "clsattr" and r.tag[0] == "clsattr" \
+                and l.tag[1] == r.tag[1] and l.tag[2].isupper() and r.tag[2].isupper():
+            return l.tag[2] == r.tag[2]  # members of one enumeration class
         for a, b in ((l, r), (r, l)):
             if isinstance(a, Const) and a.v is None and isinstance(b, Sym) and b.tag and b.tag[0] == "g":
                 return False  # an imported module attribute is not None
+            if isinstance(a, Const) and a.v is None and isinstance(b, Sym) and b.tag and b.tag[0] == "ver" and b.tag[-1] is True:
+                return False  # widened local known to hold a freshly built container/object
         if isinstance(l, Const) and isinstance(r, Const):
             if l.v is None or r.v is None or isinstance(l.v, bool) or isinstance(r.v, bool):
                 return l.v is r.v
@@ -1437,9 +1454,9 @@ class Interp:
     def e_Await(self, node, cfg, out):
         res = []
         for c, v in self.ev(node.value, cfg, out):
-            c = self.policy.on_await(self, node, c)
             for ex in self.policy.await_raises(self, node, c):
                 out.add("raise", c.set("$exc", ExcV(ex, f"await L{node.lineno}")))
+            c = self.policy.on_await(self, node, c)  # the await completed
             res.append((c, v))
         return res
 
